@@ -1,7 +1,9 @@
 import EinxModel.Driver.Util
 import EinxModel.IR.Validate
 import EinxModel.IR.PrimX
+import EinxModel.IR.Arith
 import EinxModel.Denote.Expr2
+import EinxModel.Denote.Expr3
 import Std.Data.HashMap
 open Lean Einx.Driver Einx.IR Einx.Denote
 
@@ -45,6 +47,10 @@ def parseInstr (j : Json) : R InstrX := do
   | "matmul" => pure (.matmul (← natF j "x") (← natF j "y"))
   | "flip" => pure (.flip (← natF j "x") (← natsF j "axes"))
   | "roll" => pure (.roll (← natF j "x") (← intsF j "shifts") (← natsF j "axes"))
+  | "argfind" => pure (.argfind (← strF j "f") (← natF j "x") (← natF j "axis"))
+  | "sort" => pure (.sortAxis (← strF j "f") (← natF j "x") (← natF j "axis"))
+  | "arange" => pure (.arange (← natF j "n"))
+  | "take" => pure (.take (← natF j "x") (← natF j "idx"))
   | k => throw s!"unknown instruction {k}"
 
 partial def cellJson : Cell → Json
@@ -53,10 +59,50 @@ partial def cellJson : Cell → Json
   | .app f args => Json.mkObj [("f", Json.str f), ("a", jArr (args.map cellJson))]
   | .bad => Json.str "bad"
 
+partial def parseCell (j : Json) : R Cell := do
+  match j with
+  | Json.str "bad" => pure .bad
+  | _ =>
+    match fldOpt j "s", fldOpt j "l", fldOpt j "f" with
+    | some s, _, _ =>
+      match ← (← asArr s).mapM asNat with
+      | [r, k] => pure (.src r k)
+      | _ => throw "cell: src needs [register, position]"
+    | _, some l, _ => pure (.lit (← asInt l))
+    | _, _, some f => do
+      match f.getStr? with
+      | .ok name => pure (.app name (← (← arrF j "a").mapM parseCell))
+      | .error _ => throw "cell: function name"
+    | _, _, _ => throw "cell: unknown form"
+
 /-! ### Concrete integer algebra (primitive conformance, model-vs-oracle runs) -/
+
+/-- Index of the first element that is strictly better than all earlier ones. -/
+def argBest (better : Int → Int → Bool) (args : List Int) : Int :=
+  Int.ofNat (args.zipIdx.foldl (fun (best : Int × Nat) (v, i) => if better v best.1 then (v, i) else best) (args.headD 0, 0)).2
+
+/-- Values with their positions, sorted by value (ties by position). -/
+def sortedPairs (args : List Int) : Array (Int × Nat) :=
+  args.zipIdx.toArray.qsort (fun a b => a.1 < b.1 || (a.1 == b.1 && a.2 < b.2))
 
 def intApp (f : String) (args : List Int) : Int :=
   if f == "red:sum" then args.foldl (· + ·) 0
+  else if f == "argmax" then argBest (· > ·) args
+  else if f == "argmin" then argBest (· < ·) args
+  else if f.startsWith "sort:" then
+    match (f.drop 5).toString.toNat? with
+    | some k => ((sortedPairs args)[k]?.map (·.1)).getD (-999981)
+    | none => -999981
+  else if f.startsWith "argsort:" then
+    match (f.drop 8).toString.toNat? with
+    | some k => ((sortedPairs args)[k]?.map (fun p => Int.ofNat p.2)).getD (-999981)
+    | none => -999981
+  else if f == "take" then
+    match args with
+    | i :: data =>
+      let j := if i < 0 then i + data.length else i
+      if j < 0 then -999981 else data.getD j.toNat (-999981)
+    | [] => -999981
   else if f == "red:prod" then args.foldl (· * ·) 1
   else if f == "red:max" then args.foldl max (args.headD 0)
   else if f == "red:min" then args.foldl min (args.headD 0)
@@ -69,6 +115,8 @@ def intApp (f : String) (args : List Int) : Int :=
   | "maximum", [a, b] => max a b
   | "minimum", [a, b] => min a b
   | "negative", [a] => -a
+  | "floor_divide", [a, b] => Int.fdiv a b
+  | "remainder", [a, b] => Int.fmod a b
   | _, _ => -999983      -- an uninterpreted function: any fixed value (never compared)
 
 def intAlg : Alg Int := { lit := id, app := intApp, bad := -999979 }
@@ -217,6 +265,44 @@ def translateCall (fname : String) (args : List Json) (kwargs : List Json) : T B
     let rs ← bounds.mapM (fun (lo, hi) => emit (.slice r axis lo hi))
     pure (.pendingList rs)
   | "numpy.matmul", [x, y] => do pure (.pending (← emitX (.matmul (← regOf x) (← regOf y))))
+  | "numpy.argmax", [x] => do
+    if kwargs.length != 1 then failU "argmax with extra keywords"
+    pure (.pending (← emitX (.argfind "argmax" (← regOf x) (← natKw "axis"))))
+  | "numpy.argmin", [x] => do
+    if kwargs.length != 1 then failU "argmin with extra keywords"
+    pure (.pending (← emitX (.argfind "argmin" (← regOf x) (← natKw "axis"))))
+  | "numpy.sort", [x] => do
+    if kwargs.length != 1 then failU "sort with extra keywords"
+    pure (.pending (← emitX (.sortAxis "sort" (← regOf x) (← natKw "axis"))))
+  | "numpy.argsort", [x] => do
+    if kwargs.length != 1 then failU "argsort with extra keywords"
+    pure (.pending (← emitX (.sortAxis "argsort" (← regOf x) (← natKw "axis"))))
+  | "numpy.divmod", [x, k] => do
+    -- numpy returns the pair (floor_divide(x, k), remainder(x, k)); the graph casts it to a tuple of tensors
+    if !kwargs.isEmpty then failU "divmod with keywords"
+    let a ← argOf x
+    let b ← argOf k
+    let q ← emit (.ewise "floor_divide" [a, b])
+    let r ← emit (.ewise "remainder" [a, b])
+    pure (.pendingList [q, r])
+  | "numpy.arange", [n] => do
+    -- only the integer dtypes einx passes for coordinates; the values are exact integers in the model
+    match kwargs with
+    | [] => pure ()
+    | [_] =>
+      match kwarg kwargs "dtype" with
+      | some d =>
+        let dt ← liftR (strF d "v")
+        if !(["int32", "int64", "int16", "int8", "uint8", "uint16", "uint32", "uint64"].contains dt) then failU s!"arange with dtype {dt}"
+      | none => failU "arange with an unknown keyword"
+    | _ => failU "arange with extra keywords"
+    if (← liftR (strF n "t")) != "int" then failU "arange: size is not an int"
+    let i ← liftR (intF n "v")
+    if i < 0 then failU "arange: negative size"
+    pure (.pending (← emitX (.arange i.toNat)))
+  | "numpy.take", [x, idx] => do
+    if !kwargs.isEmpty then failU "take with keywords"
+    pure (.pending (← emitX (.take (← regOf x) (← regOf idx))))
   | "numpy.flip", [x] => do
     match kwarg kwargs "axis" with
     | some a => pure (.pending (← emitX (.flip (← regOf x) (← liftR (natsOrNat a)))))
@@ -383,6 +469,10 @@ def instrJson : InstrX → Json
   | .matmul x y => Json.mkObj [("i", "matmul"), ("x", jNat x), ("y", jNat y)]
   | .flip x axes => Json.mkObj [("i", "flip"), ("x", jNat x), ("axes", jNats axes)]
   | .roll x sh axes => Json.mkObj [("i", "roll"), ("x", jNat x), ("shifts", jInts sh), ("axes", jNats axes)]
+  | .argfind f x a => Json.mkObj [("i", "argfind"), ("f", Json.str f), ("x", jNat x), ("axis", jNat a)]
+  | .sortAxis f x a => Json.mkObj [("i", "sort"), ("f", Json.str f), ("x", jNat x), ("axis", jNat a)]
+  | .arange n => Json.mkObj [("i", "arange"), ("n", jNat n)]
+  | .take x idx => Json.mkObj [("i", "take"), ("x", jNat x), ("idx", jNat idx)]
 
 /-- The expected symbolic tensors of a solved operation (`none`: family not covered by the validator). -/
 def expectedOf (family op : String) (shifts : List Int) (exprsIn exprsOut : List Expr) : Except String (Option (List (Tensor Cell))) := do
@@ -396,6 +486,26 @@ def expectedOf (family op : String) (shifts : List Int) (exprsIn exprsOut : List
     if op == "flip" || op == "roll" then pure (some [← denoteMove op shifts i o]) else pure none
   | _, _, _ => pure none
 
+/-- n-ary elementwise operations ("takes any number of scalars"): a left fold of the binary function. -/
+def naryNames : List String := ["add", "multiply", "logical_and", "logical_or", "maximum", "minimum", "logaddexp"]
+
+/-- `expectedOf` extended by the families that only the validator / `denote` kinds use: n-ary
+elementwise (≥ 3 operands), argmax/argmin, get_at, sort/argsort.  (`expectedOf` itself is also the loop
+form that `denote_fun` compares with the functional form and is left as it is.) -/
+def expectedOfX (family op : String) (shifts : List Int) (exprsIn exprsOut : List Expr) : Except String (Option (List (Tensor Cell))) := do
+  match family, exprsIn, exprsOut with
+  | "elementwise", _, [o] =>
+    if exprsIn.length ≥ 3 then
+      if naryNames.contains op then pure (some [← denoteElementwiseFold op exprsIn o]) else pure none
+    else expectedOf family op shifts exprsIn exprsOut
+  | "argfind", [i], [o] =>
+    if op == "argmax" || op == "argmin" then pure (some [← denoteArgfind op i o]) else pure none
+  | "get_at", _, [o] => pure (some [← denoteGetAt exprsIn o])
+  | "preserve_shape", [i], [o] =>
+    if op == "sort" || op == "argsort" then pure (some [← denoteSort op i o])
+    else expectedOf family op shifts exprsIn exprsOut
+  | _, _, _ => expectedOf family op shifts exprsIn exprsOut
+
 /-- kind `validate`: graph JSON + solved operation → verdict. -/
 def handleValidate (j : Json) : R Json := do
   let g ← fld j "graph"
@@ -406,8 +516,10 @@ def handleValidate (j : Json) : R Json := do
   let shifts ← match fldOpt j "shifts" with
     | some sh => (← asArr sh).mapM asInt
     | none => pure []
-  match expectedOf family op shifts exprsIn exprsOut with
-  | .error e => pure (Json.mkObj [("verdict", "denote-error"), ("why", Json.str e)])
+  match expectedOfX family op shifts exprsIn exprsOut with
+  | .error e =>
+    if e.startsWith "unsupported:" then pure (Json.mkObj [("verdict", "unsupported"), ("why", Json.str e)])
+    else pure (Json.mkObj [("verdict", "denote-error"), ("why", Json.str e)])
   | .ok none => pure (Json.mkObj [("verdict", "unsupported"), ("why", Json.str s!"family {family}")])
   | .ok (some expected) =>
     match runTranslate g with
@@ -417,7 +529,10 @@ def handleValidate (j : Json) : R Json := do
       if inShapes != exprsIn.map shapeOf then
         pure (Json.mkObj [("verdict", "rejected"), ("why", Json.str s!"input shapes {inShapes} differ from the expressions' shapes")])
       else if validateG planInstrX prog inShapes outs expected then
-        pure (Json.mkObj [("verdict", "accepted"), ("instrs", jNat prog.length), ("prog", jArr (prog.map instrJson))])
+        pure (Json.mkObj [("verdict", "accepted"), ("mode", "syntactic"), ("instrs", jNat prog.length), ("prog", jArr (prog.map instrJson))])
+      else if family == "get_at" && validateArith planInstrX prog inShapes outs expected then
+        -- index arithmetic in another association / order: equal modulo integer arithmetic (`validate_sound_arith`)
+        pure (Json.mkObj [("verdict", "accepted"), ("mode", "arith"), ("instrs", jNat prog.length), ("prog", jArr (prog.map instrJson))])
       else
         let got := match symRunG planInstrX prog inShapes outs with
           | .ok res => jArr (res.map (fun t => Json.mkObj [("shape", jNats t.shape), ("cells", jArr ((t.data.take 12).map cellJson))]))
@@ -436,15 +551,30 @@ def handleDenote (j : Json) : R Json := do
   let shifts ← match fldOpt j "shifts" with
     | some sh => (← asArr sh).mapM asInt
     | none => pure []
-  match expectedOf family op shifts exprsIn exprsOut with
-  | .error e => pure (Json.mkObj [("err", Json.str e)])
+  match expectedOfX family op shifts exprsIn exprsOut with
+  | .error e =>
+    if e.startsWith "unsupported:" then pure (Json.mkObj [("unsupported", Json.str e)])
+    else pure (Json.mkObj [("err", Json.str e)])
   | .ok none => pure (Json.mkObj [("unsupported", Json.str family)])
   | .ok (some ts) =>
     pure (Json.mkObj [("ok", jArr (ts.map (fun t => tensorJson (⟨t.shape, evalCells intAlg inputs t.data⟩ : Tensor Int))))])
 
+/-- kind `norm_arith`: cells → their arithmetic normal forms and, when integer inputs are given, the values
+of the cells and of their normal forms (self-check of `IR.normArith` on every run). -/
+def handleNormArith (j : Json) : R Json := do
+  let cells ← (← arrF j "cells").mapM parseCell
+  let norm := cells.map normArith
+  match fldOpt j "inputs" with
+  | some _ =>
+    let inputs ← (← arrF j "inputs").mapM parseTensor
+    pure (Json.mkObj [("norm", jArr (norm.map cellJson)), ("values", jInts (evalCells intAlg inputs cells)),
+      ("norm_values", jInts (evalCells intAlg inputs norm))])
+  | none => pure (Json.mkObj [("norm", jArr (norm.map cellJson))])
+
 def handle (j : Json) : R Json := do
   match ← strF j "kind" with
   | "ir_run" => handleRun j
+  | "norm_arith" => handleNormArith j
   | "validate" => handleValidate j
   | "denote" => handleDenote j
   | k => throw s!"unknown kind {k}"
